@@ -477,7 +477,8 @@ def compile_ast(
                 # For UNION ALL (not distinct), just concat
                 df = pl.concat([df, right_df])
 
-        # name_in_df and select remain the same (from left table)
+        # select remains the same (from left table); the hidden columns were dropped from the frame
+        name_in_df = {uid: name_in_df[uid] for uid in select}
 
     elif isinstance(nd, PolarsImpl):
         df = nd.df
